@@ -97,10 +97,17 @@ func (p *ProjectRunner) Run() error {
 	p.prepareEnvCmds()
 	//zerolog.SetGlobalLevel(zerolog.PanicLevel)
 	log.Debug().Msgf("Spinning up %d processes. Order: %q", len(runOrder), nameOrder)
+	// start and restart requests are served as soon as the API is up: they must not
+	// interleave with the initial spawn, or both launch an instance of the process
+	p.startMutex.Lock()
 	for _, proc := range runOrder {
+		if p.getRunningProcess(proc.ReplicaName) != nil {
+			continue
+		}
 		newConf := proc
 		p.runProcess(&newConf)
 	}
+	p.startMutex.Unlock()
 	p.waitGroup.Wait()
 	log.Info().Msg("Project completed")
 	if p.exitCode != 0 {
